@@ -151,6 +151,13 @@ def from_repr(r):
             module = importlib.import_module(r['__module__'])
             qual = getattr(module, r['__qualname__'])
 
+            if '__cycle_id__' in r:
+                r = dict(r)
+                cycle_id = r.pop('__cycle_id__')
+                o = from_repr(r)
+                o.cycle_id = cycle_id
+                return o
+
             if type(qual) == types.FunctionType:
                 args = {k: from_repr(v) for k, v in r.items()
                         if k not in ['__qualname__', '__module__', '__type__']}
@@ -183,7 +190,12 @@ def simple_repr(o):
     :return: a simple representation for this object
     """
     if hasattr(o, '_simple_repr'):
-        return o._simple_repr()
+        r = o._simple_repr()
+        if hasattr(o, 'cycle_id') and isinstance(r, dict):
+            # Messages sent by synchronous computations are tagged with the cycle
+            # they belong to, which is not a constructor argument.
+            r['__cycle_id__'] = o.cycle_id
+        return r
     elif isinstance(o, tuple):
         if hasattr(o, '_asdict'):
             # detect namedtuple
